@@ -1,7 +1,7 @@
 """Fabric correspondence: Lean `Conc.Fab` ↔ real `ActiveFabricSource` under dsched (one step per
 Queue primitive / join / API call), plus implementation-side oracles for C06, C08, C09, C13."""
 import os, sys, json, random, collections
-import leanrun, dsched
+import leanrun, dsched, charts
 from charts import Event
 import miros.activeobject as mao
 
@@ -153,10 +153,11 @@ def run_real(sc, chooser, max_steps=4000):
                     if call == "subscribe":
                         # by event or by signal number; fifo also through the default
                         what = Event(signal=sc.name(b)) if (a + b) % 3 else Event(signal=sc.name(b)).signal
+                        form = charts.STRING_FORMS[(a + 2 * b + k) % len(charts.STRING_FORMS)]      # the kind as a literal or an equal string
                         if c:
-                            af.subscribe(queues[a], what, queue_type="lifo")
+                            af.subscribe(queues[a], what, queue_type=charts.string_as("lifo", form))
                         elif (a + b) % 2:
-                            af.subscribe(queues[a], what, queue_type="fifo")
+                            af.subscribe(queues[a], what, queue_type=charts.string_as("fifo", form))
                         else:
                             af.subscribe(queues[a], what)
                     elif call == "publish":
